@@ -33,15 +33,21 @@ Budget(count, sk, over, ntrees, defOver, max) ==
    that side of split nid: an integer rank, positive on the query's own side. *)
 RefKey(r) == IF IsItem(r) THEN 1000000 + r[2] ELSE r[2]
 Better(a, b) == a[1] > b[1] \/ (a[1] = b[1] /\ RefKey(a[2]) > RefKey(b[2]))
-Top(q) == CHOOSE a \in q : \A c \in q : c = a \/ Better(a, c)
 MinI(a, b) == IF a < b THEN a ELSE b
+
+\* The queue is a BAG (a sequence here): the same single-item child is reachable from several trees and is
+\* then queued, popped and counted once per tree (the first version of this module used a set; the
+\* conformance check against recorded searches showed the difference on forests of item-only splits).
+TopIndex(q) == CHOOSE k \in DOMAIN q : \A j \in DOMAIN q : j = k \/ Better(q[k], q[j]) \/ (q[k] = q[j] /\ k < j)
+RemoveAt(q, k) == [j \in 1 .. (Len(q) - 1) |-> IF j < k THEN q[j] ELSE q[j + 1]]
 
 RECURSIVE VisitLoop(_, _, _, _, _, _, _)
 \* returns the sequence of candidate item ids in the order they were collected (duplicates kept)
 VisitLoop(nodes, queue, cands, budget, filter, prio, fuel) ==
-  IF Len(cands) >= budget \/ queue = {} \/ fuel = 0 THEN cands
-  ELSE LET top == Top(queue)
-           rest == queue \ {top}
+  IF Len(cands) >= budget \/ queue = <<>> \/ fuel = 0 THEN cands
+  ELSE LET k == TopIndex(queue)
+           top == queue[k]
+           rest == RemoveAt(queue, k)
            r == top[2]
        IN IF IsItem(r)
           THEN VisitLoop(nodes, rest, IF r[2] \in filter THEN Append(cands, r[2]) ELSE cands,
@@ -51,13 +57,13 @@ VisitLoop(nodes, queue, cands, budget, filter, prio, fuel) ==
                IF IsBucket(n)
                THEN VisitLoop(nodes, rest, cands \o SortedSeq(n.items \cap filter), budget, filter, prio, fuel - 1)
                ELSE VisitLoop(nodes,
-                              rest \cup {<<MinI(top[1], prio[<<r[2], "L">>]), n.l>>,
-                                         <<MinI(top[1], prio[<<r[2], "R">>]), n.r>>},
+                              rest \o <<<<MinI(top[1], prio[<<r[2], "L">>]), n.l>>,
+                                        <<MinI(top[1], prio[<<r[2], "R">>]), n.r>>>>,
                               cands, budget, filter, prio, fuel - 1)
 
-Infinity == 1000
+Infinity == 1000000
 Visit(nodes, roots, budget, filter, prio) ==
-  VisitLoop(nodes, {<<Infinity, TreeRef(roots[k])>> : k \in DOMAIN roots}, <<>>, budget, filter, prio,
+  VisitLoop(nodes, [k \in DOMAIN roots |-> <<Infinity, TreeRef(roots[k])>>], <<>>, budget, filter, prio,
             4 * (Cardinality(DOMAIN nodes) + 1) * (Len(roots) + 1) + 8)
 
 \* the answer: the `count` best distinct candidates by (distance rank, id)
@@ -106,6 +112,27 @@ MonotoneDefects(chain) ==
                    /\ chain[a].res.cls[j] > 0 /\ chain[b].res.cls[j] > 0
                    /\ chain[b].res.cls[j] > chain[a].res.cls[j]
      THEN {<<"C03", "larger_budget_worse_result">>} ELSE {}
+
+\* Conformance of the traversal itself: with the priorities the reader computes at every split (logged from
+\* arroy's own margin function), the candidates found under each budget are exactly those of Visit.
+\* Observable when count >= population: the result is then the whole candidate set.
+JPrio(p) ==
+  [x \in UNION {{<<p[k][1], "L">>, <<p[k][1], "R">>} : k \in DOMAIN p} |->
+     LET k == CHOOSE k \in DOMAIN p : p[k][1] = x[1] IN IF x[2] = "L" THEN p[k][2] ELSE p[k][3]]
+SearchDrift(q, roots, live, nodes) ==
+  IF q.open # "Ok" THEN {}
+  ELSE IF ForestDefects(nodes, roots, live, live) # {} THEN {}
+  ELSE IF \E a \in DOMAIN q.queries : \E b \in DOMAIN q.queries[a].groups : \E c \in DOMAIN q.queries[a].groups[b].chains :
+            LET qq == q.queries[a]
+                g == qq.groups[b]
+                ch == g.chains[c]
+                popIds == {g.pop[k][1] : k \in DOMAIN g.pop}
+            IN /\ ch.count_eff = Len(g.pop)
+               /\ \E k \in DOMAIN ch.chain :
+                     /\ ch.chain[k].res.c = "Ok"
+                     /\ JS(ch.chain[k].res.ids) # SeqToSet(Visit(nodes, roots, ch.chain[k].budget, popIds, JPrio(qq.prio)))
+       THEN {<<"C03", "results_differ_from_the_specified_traversal">>}
+       ELSE {}
 
 SearchDefects(q, ix, nodesMs, Side(_, _)) ==
   IF q.open # "Ok" THEN {}   \* the index did not open: nothing to query (C06 judges the open result)
